@@ -4,8 +4,8 @@ from ..core import Violation
 from .. import lifecycle_common as L
 
 ID = 'C18'
-MODULES = ['OFModel.Lifecycle', 'OFModel.Lineage', 'OFModel.LineageLock']
-PROP_FILES = ['C18', 'C18Reuse', 'C18Lock']
+MODULES = ['OFModel.Lifecycle', 'OFModel.Lineage', 'OFModel.LineageLock', 'OFModel.FacetNames', 'OFModel.Gen.PyFacts']
+PROP_FILES = ['C18', 'C18Reuse', 'C18Lock', 'FacetNamesLemmas', 'C18Facet']
 RULE = ('real OpenFilterLineage(client=capturing fake) as Filter.emitter on the real Filter.run of scripted filters: every way a run can end '
         '(exit() / exit(exc) incl. exit(reason, SystemExit(1)) / exception / KeyboardInterrupt / stop event / obeyed or ignored exit message at init, setup, recv/process/send of iteration k, '
         'shutdown, fini; failing constructor, MQ, send_exit_msg; exit_after; script exhaustion) x policies x heartbeat schedules: the heartbeat '
@@ -16,13 +16,19 @@ RULE = ('real OpenFilterLineage(client=capturing fake) as Filter.emitter on the 
         'tied to the real class by 12 probes: the real heartbeat thread is parked inside its critical section (after its stop check / before the '
         'facet build / before the post) while the owner runs [stop_lineage_heart_beat,] emit_stop(clean), then released; the recorded events and '
         'whether the owner was blocked are compared with the model run (driver op c18.lock) on the corresponding schedule. '
+        'Plus the facet field names (an event whose facet dataclass cannot be built is swallowed by _emit_event = lost): 3 000 generated facet dicts (nested; keys from '
+        'CFG_EXTRAS / HB_KEYS, Python keywords, the reserved field names, stems that collide after normalisation / character replacement, random unicode incl. non-BMP and '
+        'non-ASCII upper case, empty keys, special attribute names) through the real normalize_facet_keys + flatten_dict + create_openfilter_facet_with_fields and 1 000 key lists '
+        'with a random taken set through the real facet_field_name, compared with OFModel/FacetNames.lean (driver op c18.facetnames; C18Facet.lean proves for EVERY key list: '
+        'distinct, not a fixed field, ASCII identifiers, no keywords, never of the form __x__, one per key, valid unused keys kept); oracle facet-name-invalid: the real class is built AND instantiated, one field per key, no special attribute names. '
         'non-trivial = START was emitted')
 ASSUMPTIONS = ['several runs of one process share the emitter object (Filter.emitter is a class attribute) and therefore its run id; C18_reused_emitter proves that from any between-runs state a run emits the history it emits on a fresh object, and sequences of 2-3 runs on one real object are compared run by run with the model',
                '"ended cleanly" is read as: Filter.run returned normally (C08: returns for clean exits, raises for errors); a stop event (signal) and an obeyed, eaten propagated error therefore end in COMPLETE; anything leaving run() - an Exception, a KeyboardInterrupt, exit(reason, SystemExit(n)) - in ABORT',
                'a run whose constructor fails, or whose subclass init() fails before Filter.init() is reached, emits nothing (no START): stated boundary',
                'heartbeat steps and emitter calls are atomic with respect to each other - no longer assumed: C18_lock_refines_atomic derives it from the lock discipline of lineage.py transcribed statement by statement (OFModel/LineageLock.lean: which statements are inside `with self._lock`, lock owner, every scheduler of heartbeat, main and exporter thread), C18_lock_language / C18_lock_terminal transfer the history theorems to every fine-grained schedule, C18_lock_post_outside_lock_breaks is the kernel-checked counterexample when the RUNNING post leaves the lock; what remains assumed is listed under TRUSTED (CPython primitives) and the granularity: one statement = one step, Event.set/clear/is_set and client.emit are single steps',
                'a killed process emits nothing; the exporter thread only calls update_heartbeat_lineage (no event); one main thread makes the emitter calls (Filter.run)',
-               'event payloads (facets, job name, producer, timestamps) are not compared']
+               'event payloads (job name, producer, timestamps, facet VALUES) are not compared; the facet FIELD NAMES are (C18Facet.lean, ofverif/facetnames.py): facet keys are str (JSON-like configuration / metric names), no lone surrogates; '
+               'str.isupper / str.lower / keyword.kwlist of the running interpreter are generated facts (OFModel/Gen/PyFacts.lean); a field named like a special attribute of the dataclass (__init__, __slots__, __annotations__, __dict__, ...) passes the name checks of make_dataclass but breaks the class (d56dae2 lost the event for {\'._init__\': 1}; fixed by C18-facet-dunder-names): C18_facet_no_dunder proves that no produced name has the form __x__, the oracle facet-name-invalid instantiates the real class and rejects such names; that names of another form never collide with an attribute the dataclass machinery needs is checked by the oracle, not proved']
 TRUSTED = ['the gate that parks the heartbeat thread in _stop_event.wait() (harness) realises the schedule of the model\'s interleave',
            'CPython: threading.Lock is a mutual-exclusion lock (acquire blocks while it is held), threading.Event.set/clear/is_set are atomic, Thread.is_alive() is true until the target has returned',
            'the park points of atomic_probe (inside Event.is_set under the lock / at the entry of create_openfilter_facet_with_fields / at the entry of client.emit) are the program counters readFacets / build / post of OFModel/LineageLock.lean; lock_schedule() writes down the schedule the probe realises']
@@ -102,6 +108,11 @@ def run_impl(case):
         time.sleep(0.004)
         em._stop_event.set()
         if em._thread: em._thread.join(1)
+    if case.get('hb_facets'):
+        # the telemetry bridge outlives the run (the metric reader's next tick, the provider's flush at exit): a facet batch that arrives AFTER the run
+        # has ended must not add anything to its history
+        try: em.update_heartbeat_lineage(facets={name: -1 for name in case['hb_facets']})
+        except Exception: pass
     ev = list(cap.ev)
     return {'events': [t for t, _ in ev], 'rids': len({r for _, r in ev}), 'ops': ops, 'returns': o['outcome'] == 'returns', 'outcome': o['outcome'],
             'log': o['log'], 'fired': o['fired']}
@@ -289,9 +300,9 @@ def run(ctx):
     logging.disable(logging.CRITICAL)
     res, rng = ctx.result, ctx.rng
     if ctx.replay:
-        cases = [ctx.replay['case']] if ctx.replay.get('case') and 'probe' not in ctx.replay['case'] and 'multi' not in ctx.replay['case'] else []
+        cases = [ctx.replay['case']] if ctx.replay.get('case') and 'probe' not in ctx.replay['case'] and 'multi' not in ctx.replay['case'] and 'facetnames' not in ctx.replay['case'] else []
     else:
-        cases = [c['case'] if 'case' in c else c for c in ctx.corpus if 'probe' not in (c.get('case') or c) and 'multi' not in (c.get('case') or c)] + gen_cases(rng, 16 if ctx.thorough else 4 if ctx.escalate else 1)
+        cases = [c['case'] if 'case' in c else c for c in ctx.corpus if 'probe' not in (c.get('case') or c) and 'multi' not in (c.get('case') or c) and 'facetnames' not in (c.get('case') or c)] + gen_cases(rng, 16 if ctx.thorough else 4 if ctx.escalate else 1)
     impl = [run_impl(c) for c in cases]
     model = None
     if ctx.driver:
@@ -367,6 +378,10 @@ def run(ctx):
             elif not bad: res.disagreements.append({'point': 'c18.lock', 'case': case, 'impl': mi, 'model': mm})
         elif not bad and o['parked']: res.traces_validated += 1
     res.extra['heartbeat_atomicity_probes'] = probes
+    # facet field names: whatever the keys of a facet are called, the dataclass of the event can be built (C18Facet.lean)
+    from .. import facetnames
+    pools = sorted({k for d in CFG_EXTRAS for k in d} | {k for d in CFG_EXTRAS for v in d.values() if isinstance(v, dict) for k in v} | set(HB_KEYS))
+    facetnames.run_c18(ctx, res, pools)
     res.extra['endings'] = ends
     res.extra['terminal_events'] = terms
     res.extra['running_events_per_run'] = nrun
